@@ -927,7 +927,7 @@ func (fc *FnCtx) doRunDefers(x *ssa.RunDefers) {
 func (fc *FnCtx) doReturn(x *ssa.Return) {
 	fc.counters["return"]++
 	for _, li := range fc.loopList {
-		if li.Spec != nil && li.Spec.Exhaustive && li.Blocks[x.Block()] {
+		if li.Spec != nil && li.Spec.Exhaustive && (li.Blocks[x.Block()] || (li.StmtPos.IsValid() && li.StmtPos <= x.Pos() && x.Pos() < li.StmtEnd)) {
 			fc.assert("exhaustive", fmt.Sprintf("%s:loop%d.noearlyexit#%d", fc.name, li.Ord, fc.nextCount(fmt.Sprintf("ex%d", li.Ord))), FalseT, "no return from inside the loop", x.Pos(), false)
 		}
 	}
